@@ -89,13 +89,52 @@ def gen_macro_case(rng):
   return {'dom': 'gin', 'ops': ops, '_kind': 'macro', '_fixed_store': True}
 
 
+SINGLETON_CASES = [{'dom': 'gin', '_kind': 'singleton', 'scope': sc, 'key': key, 'ops': []}
+                   for sc in ('', 'a/b') for key in ('shared', 'x/shared')]
+
+
+def run_singleton_case(case):
+  """A called gin.singleton is a called configurable like any other: it has a section, and the text replays."""
+  import core
+  gin = core.fresh_gin()
+  g = {'gin': gin, '__name__': 'sm'}
+  exec('class Thing:\n  def __init__(self, n=1):\n    self.n = n\n'  # pylint: disable=exec-used
+       'def holder(v=None, w=2):\n  return (type(v).__name__, getattr(v, "n", None), w)\n', g)
+  gin.external_configurable(g['Thing'], module='sm')
+  holder = gin.configurable(g['holder'], module='sm')
+  key = case['key']
+  gin.parse_config(f'sm.holder.v = @{key}/gin.singleton()\n{key}/gin.singleton.constructor = @sm.Thing\nsm.Thing.n = 5\n')
+  import contextlib
+
+  def call():
+    with contextlib.ExitStack() as st:
+      if case['scope']:
+        st.enter_context(gin.config_scope(case['scope']))
+      return list(holder())
+  facts = {'first': call()}
+  text = gin.operative_config_str()
+  facts['text'] = text
+  facts['has_singleton_section'] = f'{key}/gin.singleton.constructor' in text or f'{key}/singleton.constructor' in text
+  try:
+    gin.clear_config()
+    gin.parse_config(text)
+    facts['replay'] = call()
+    facts['same_text'] = gin.operative_config_str() == text
+  except Exception as e:  # pylint: disable=broad-except
+    facts['replay'] = f'{type(e).__name__}: {e}'[:200]
+  return {'out': [], 'facts': facts}
+
+
 def gen_cases(rng, tier, boost=1):
+  yield from SINGLETON_CASES
   n = (900 if tier == 'quick' else 25000) * boost
   for k in range(n):
     yield gen_macro_case(rng) if k % 5 == 4 else gen_case(rng)
 
 
 def compare(case, impl, model):
+  if case.get('_kind') == 'singleton':
+    return None
   if case.get('_kind') != 'macro':
     return gindom.compare(case, impl, model)
   from props.c06 import _plain
@@ -117,6 +156,8 @@ def compare(case, impl, model):
 
 def run_impl(case):
   """Normal run, then the replay experiment on the same interpreter state."""
+  if case.get('_kind') == 'singleton':
+    return run_singleton_case(case)
   from encode import Opaque
   Opaque._all.clear()  # pylint: disable=protected-access
   s = gindom.Session()
@@ -171,6 +212,15 @@ def oracle(case, impl):
   """C07 stated directly on the parsed operative_config_str()."""
   if case.get('_kind') == 'macro':
     return macro_oracle(case, impl)
+  if case.get('_kind') == 'singleton':
+    f = impl['facts']
+    if f['first'] != ['Thing', 5, 2]:
+      return f'harness: singleton scenario delivered {f["first"]}'
+    if not f['has_singleton_section']:
+      return f'the called singleton configurable has no section in the operative config:\n{f["text"]}'
+    if f.get('replay') != f['first'] or not f.get('same_text'):
+      return f'replaying the operative config: first {f["first"]}, replay {f.get("replay")}, same text {f.get("same_text")}\n{f["text"]}'
+    return None
   regs, binds = {}, {}
   record = {}     # (scope_str, sel) -> {param: value}   what the property says must be listed
   all_repr = True
@@ -258,6 +308,8 @@ def macro_oracle(case, impl):
 
 
 def nontrivial(case, impl):
+  if case.get('_kind') == 'singleton':
+    return True
   if case.get('_kind') == 'macro':
     return any(o['op'] == 'ecall' and 'ok' in r for o, r in zip(case['ops'], impl['out']))
   seen = {}
